@@ -66,7 +66,10 @@ func (h *Handler) HandleMessage(msg stanza.Message, r xmlstream.TokenReadEncoder
 	if err != nil {
 		return err
 	}
-	start := tok.(xml.StartElement)
+	start, ok := tok.(xml.StartElement)
+	if !ok {
+		return fmt.Errorf("history: expected result start token, got %T %[1]v", tok)
+	}
 	var queryID string
 	for _, attr := range start.Attr {
 		if attr.Name.Local == "queryid" {
